@@ -18,11 +18,17 @@ theorem schedLoop_ren (h : a.Inj) (net : Net) (mi : Nat) (path : String) (fuel :
     cases hm : s.mods[mi]? with
     | none => rfl
     | some m =>
-      simp only [Option.map, renMod_tick, renMod_localq, renMod_inject]
+      simp only [Option.map, renMod_tick, renMod_localq, renMod_inject, renMod_deferq]
       cases hn : nextTask (m.tick + 1) m.localq m.inject with
       | none =>
         simp only []
-        exact updMod_ren a s mi _ _ (fun m => by simp [renMod])
+        cases m.deferq with
+        | nil => exact updMod_ren a s mi _ _ (fun m => by simp [renMod])
+        | cons x r =>
+          simp only []
+          rw [updMod_ren a s mi _ (fun m => { m with tick := m.tick + 1, localq := m.deferq.reverse, deferq := [] })
+            (fun m => by simp [renMod])]
+          exact ih _
       | some r =>
         obtain ⟨t, l, i⟩ := r
         simp only []
@@ -88,8 +94,8 @@ theorem execFuel_ren (s : Sim) (mi : Nat) : execFuel (renSim a s) mi = execFuel 
   cases s.mods[mi]? with
   | none => rfl
   | some m =>
-    simp only [Option.map, renMod_localq, renMod_inject, renMod_tasks, List.map_map]
-    have : ((fun t => t.prog.length) ∘ renTask a) = (fun t : TaskRt => t.prog.length) := rfl
+    simp only [Option.map, renMod_localq, renMod_inject, renMod_deferq, renMod_tasks, List.map_map]
+    have : ((fun t => (t.prog.map Step.weight).sum) ∘ renTask a) = (fun t : TaskRt => (t.prog.map Step.weight).sum) := rfl
     rw [this]
 
 theorem deactivate_ren (b : Bool) (s : Sim) (mi : Nat) : deactivate b (renSim a s) mi = renSim a (deactivate b s mi) := by
